@@ -216,7 +216,10 @@ mod verif {
                 // ends in the very frame in which it left None/Waiting
                 let ends_unplayed = new_state == AnimationState::Ended && old_state != AnimationState::Ended && old_state != AnimationState::Playing;
                 if (old_state == AnimationState::Playing || ends_unplayed) && s.targets.present {
-                    assert!(s.targets.value.updates == 1 && s.targets.value.last_update_at == pos_f);
+                    // (at the current position; once the position is at/after the end, any evaluation time at/after
+                    // the end shows the same - terminal - values, which is all the property speaks of)
+                    let at = s.targets.value.last_update_at;
+                    assert!(s.targets.value.updates == 1 && (at == pos_f || (pos_f >= tl.duration && at >= tl.duration)));
                 } else {
                     assert!(s.targets.value == old_comp);
                 }
